@@ -77,8 +77,28 @@ def smt_query(lookup: str, kind: str, cat: str = '', budget_s: float = 280, sub:
         r, dt = T.solve(s, max(5.0, budget_s - (time.time() - t0)))
         queries += 1
         solver_s += dt
-        samples.append({'query': desc, 'result': r, 'solver_s': round(dt, 2),
-                        'assertions': len(s.assertions())})
+        rec = {'query': desc, 'result': r, 'solver_s': round(dt, 2), 'assertions': len(s.assertions())}
+        if second_solver:
+            # cross-check with the system z3 4.8.12 binary on the exported SMT-LIB text
+            import os
+            import subprocess
+            import tempfile
+            fd, path = tempfile.mkstemp(suffix='.smt2')
+            try:
+                with os.fdopen(fd, 'w') as f:
+                    f.write('(set-logic QF_BV)\n' + s.sexpr() + '(check-sat)\n')
+                t = time.time()
+                pr = subprocess.run(['/usr/bin/z3', f'-T:{int(max(30, budget_s / 2))}', path], capture_output=True, text=True)
+                out = pr.stdout.strip().splitlines()
+                r2 = 'error' if any(l.startswith('(error') for l in out) else (out[-1] if out else 'none')
+                rec['second_solver'] = {'name': 'z3 4.8.12 (/usr/bin/z3)', 'result': r2, 'solver_s': round(time.time() - t, 2)}
+                queries += 1
+                if r2 in ('sat', 'unsat') and r in ('sat', 'unsat') and r2 != r:
+                    rec['disagreement'] = True
+                    r = 'solvers-disagree'
+            finally:
+                os.unlink(path)
+        samples.append(rec)
         return r
 
     def finish(status: str, **kw: Any) -> dict:
@@ -433,23 +453,23 @@ def jobs(tier: str, seed: int) -> list[dict]:
         rules = T.RULES[lk]
         for kind in ('valid', 'label', 'ranges'):
             out.append(dict(name=f'L1/{lk}/{kind}', kind='native', fn='smt_query',
-                            params=dict(lookup=lk, kind=kind, budget_s=B), budget_s=B))
+                            params=dict(lookup=lk, kind=kind, budget_s=B, second_solver=tier == 'thorough'), budget_s=B))
         cats = ['ALL'] if rules.get('badugi') else rules['order']
         for cat in cats:
             if rules.get('opening') and cat in ('HIGH_CARD', 'ONE_PAIR'):
                 for size in rules['cards']:
                     out.append(dict(name=f'L1/{lk}/pairs/{cat}/size{size}', kind='native', fn='smt_query',
-                                    params=dict(lookup=lk, kind='pairs', cat=cat, size=size, budget_s=B),
+                                    params=dict(lookup=lk, kind='pairs', cat=cat, size=size, budget_s=B, second_solver=tier == 'thorough'),
                                     budget_s=B))
             elif lk in BIG and cat in BIG[lk]:
                 m = len(rules['ranks'])
                 for sub in range(m):
                     out.append(dict(name=f'L1/{lk}/pairs/{cat}/top{sub}', kind='native', fn='smt_query',
-                                    params=dict(lookup=lk, kind='pairs', cat=cat, sub=sub, budget_s=B),
+                                    params=dict(lookup=lk, kind='pairs', cat=cat, sub=sub, budget_s=B, second_solver=tier == 'thorough'),
                                     budget_s=B))
             else:
                 out.append(dict(name=f'L1/{lk}/pairs/{cat}', kind='native', fn='smt_query',
-                                params=dict(lookup=lk, kind='pairs', cat=cat, budget_s=B), budget_s=B))
+                                params=dict(lookup=lk, kind='pairs', cat=cat, budget_s=B, second_solver=tier == 'thorough'), budget_s=B))
     for low in (False, True):
         out.append(dict(name=f'L2/compare/low{int(low)}', fn='h_compare', params=dict(low=low),
                         budget_s=120, must_cover=['compared', 'typeerror']))
